@@ -172,6 +172,14 @@ WordTranslateOK(W, o, t) ==
         LET s == Ent(q[1]) IN
           (HasSRow(o, s) /\ DeclSynset(W, s)[1] \in ScopeOf(W, s)) =>
              Ents(q[2]) = {DeclWord(W, z) : z \in TranslateSenses(W, DeclSynset(W, s), p[1])}
+\* ... as a list: the words of sense.translate(), one per translated sense, in its order (a
+\* word reached through two translated senses is listed twice)
+WordTranslateImageOK(W, o, t) ==
+  \A p \in Rng(t[3]) : p[2] = "ok" =>
+     \A q \in Rng(p[3]) : \A u \in Rng(o.TS) : Ent(u) = Ent(q[1]) =>
+        \A pp \in Rng(u[3]) : (pp[1] = p[1] /\ pp[2][1] = "ok") =>
+           [k \in DOMAIN q[2] |-> Ent(q[2][k])]
+             = [k \in DOMAIN pp[2][2] |-> DeclWord(W, Ent(pp[2][2][k]))]
 
 (* ---- relations (C11) ------------------------------------------------------ *)
 \* relation_map rows: <<name, source id, target id, lexicon, subtype, note, <<o, id>>>>
@@ -295,7 +303,7 @@ ObsFails(r, T, inst, o) ==
   LET W == Wn(T, inst, o.cfg)
       N1(t) == SenseNavDev(W, t)   N2(t) == WordNavOK(W, o, t)   N3(t) == SynsetNavOK(W, o, t)
       N4(t) == TranslateOK(W, Ent(t), t[10])
-      N5(t) == SenseTranslateOK(W, o, t)    N6(t) == WordTranslateOK(W, o, t)
+      N5(t) == SenseTranslateOK(W, o, t)    N6(t) == WordTranslateOK(W, o, t) /\ WordTranslateImageOK(W, o, t)
       A1(t) == TextsOK(W, t)
       F1(t) == FormsOK(W, t) \/ DevFormsOfUnselectedExtension(W, t)
       F2(t) == TagsOK(W, t) \/ DevTagsOfUnselectedExtension(W, t)
